@@ -487,7 +487,11 @@ Definition proc_step (c : cfg) (st : cstate) (h : hint) : step_result :=
           let take :=
             if 0 <? s_stop_msgs st then Some (upd_stop_msgs st (s_stop_msgs st - 1))
             else match find_offer false (s_clients st) with
-                 | Some a => Some (set_client st a KCloseStopTaken)
+                 | Some a =>
+                     match client_of st a with
+                     | KCloseStopOffered => Some (set_client st a KCloseStopTaken)
+                     | _ => None
+                     end
                  | None => None
                  end in
           match take with
@@ -566,8 +570,12 @@ Definition worker_step (c : cfg) (st : cstate) (h : hint) : step_result :=
             StepOk (upd_wpc (upd_pol_stop_msgs st (s_pol_stop_msgs st - 1)) WExited) (mk_out PtPolExit [] RNone)
           else match find_offer true (s_clients st) with
                | Some a =>
-                   (* the rendezvous completes: the closer's send returns; it will publish is_closed *)
-                   StepOk (upd_wpc (set_client st a KPolCloseStopTaken) WExited) (mk_out PtPolExit [] RNone)
+                   match client_of st a with
+                   | KPolCloseStopOffered =>
+                       (* the rendezvous completes: the closer's send returns; it will publish is_closed *)
+                       StepOk (upd_wpc (set_client st a KPolCloseStopTaken) WExited) (mk_out PtPolExit [] RNone)
+                   | _ => StepIllegal 44
+                   end
                | None => StepIllegal 42
                end
       | _ => StepIllegal 43
